@@ -11,7 +11,7 @@ equals the real one and its image equals the mirror unit for unit, otherwise the
 disagreement the model state is re-synchronised with the mirror so that one defect is reported once.
 
   fsf ready                                                     → yes | no      (no: `format` has to come first)
-  fsf format <count> <label> <tenths> <time> <date> <real> <img…> → ok | bad …   img: `a-b=BB` (units a..b uniformly BB) | `i:hex`;
+  fsf format <count> <label> <tenths> <time> <date> <lf> <real> <img…> → ok | bad …   lf: 1 = the label is addressable as a file (variant bit, probed on the real code); img: `a-b=BB` (units a..b uniformly BB) | `i:hex`;
                                                                                  the freshly formatted real image; its unit 0 is the boot sector parameter
   fsf put <path> <chunklen> <eof> <access> <created> <modified> <real> <chunks>  → ok | bad …   chunks: `i:hex,…` (`i:-` = data omitted)
   fsf delete <path> <real> | lock … | unlock …                  → ok | bad …
@@ -64,7 +64,7 @@ def resTok {α : Type} (r : R α) : String :=
 
 /-- compare result class and flushed image; on disagreement adopt the mirror (and re-open the FAT buffer from it) -/
 def verdict (mirror : Raw) (real : String) (model : String) (flushed : R Unit) (d' : Disk) : St × String :=
-  let resync : St := { disk := some (Disk.ofImg mirror d'.bpb) }
+  let resync : St := { disk := some (Disk.ofImg mirror d'.bpb d'.labelFiles) }
   if model ≠ real then (resync, s!"bad result model={model} real={real}")
   else match flushed with
     | .error e => (resync, s!"bad flush {e.token}")
@@ -166,19 +166,20 @@ def parseType (s : String) : NewType :=
 def handle (mirror : Raw) (st : St) (toks : List String) : St × String :=
   match toks with
   | ["ready"] => (st, if st.disk.isSome then "yes" else "no")
-  | "format" :: count :: label :: tenths :: time :: date :: real :: img =>
+  | "format" :: count :: label :: tenths :: time :: date :: lfiles :: real :: img =>
     match count.toNat?, Hex.ofHex label, tenths.toNat?, Hex.ofHex time, Hex.ofHex date with
     | some count, some label, some tenths, some time, some date =>
+      let lf := lfiles == "1"
       match parseImg 512 count img with
       | none => (st, "bad-request")
       | some realImg =>
         let boot := realImg.units[0]?.getD []
         let bpb := Bpb.ofBoot boot
         if !bpb.ok then (st, "bad bpb") else
-        let blank : Disk := Disk.ofImg { unitLen := 512, units := Array.replicate count (List.replicate 512 0) } bpb
+        let blank : Disk := Disk.ofImg { unitLen := 512, units := Array.replicate count (List.replicate 512 0) } bpb lf
         let (res, d1) := format label boot { tenths := tenths, time := time, date := date } blank
         let (fl, d2) := flush d1
-        let resync : St := { disk := some (Disk.ofImg realImg bpb) }
+        let resync : St := { disk := some (Disk.ofImg realImg bpb lf) }
         if resTok res ≠ real then (resync, s!"bad result model={resTok res} real={real}")
         else match fl with
           | .error e => (resync, s!"bad flush {e.token}")
